@@ -181,7 +181,10 @@ def part_a(ctx, nsets):
         # sibling namespaces whose names are textual prefixes of one another (nodq / nodq2 / nodq2x / nod), with deeper levels below some
         r0 = os.path.join(d, "dsdl", roots[0])
         for sub, name in (("nodq", "Pq"), ("nodq2", "Qq"), (os.path.join("nodq2x", "deepq"), "Rq"), ("nod", "Sq"), (os.path.join("nodq", "nodq"), "Tq"),
-                          (os.path.join("nodq2", "innerq"), "Uq")):
+                          (os.path.join("nodq2", "innerq"), "Uq"),
+                          # the same last component at the same depth under different parents, with further levels below
+                          (os.path.join("nodq", "commonq"), "Vq"), (os.path.join("nodq2", "commonq"), "Wq"), (os.path.join("nod", "commonq", "leafq"), "Xq"),
+                          (os.path.join("nodq2", "commonq", "leafq"), "Yq")):
             os.makedirs(os.path.join(r0, sub), exist_ok=True)
             with open(os.path.join(r0, sub, name + ".1.0.dsdl"), "w") as f:
                 f.write("uint8 v\n@sealed\n")
